@@ -405,7 +405,15 @@ func c13CheckVariants(r *drv.Run, vs []c13Variant, srcs [][]byte, texts [][]byte
 				r.Violate(&drv.Violation{Sig: "run-panic:" + rr.Panic.Frame, Panic: rr.Panic.Msg, Frame: rr.Panic.Frame, Src: string(srcs[k]), Text: string(text), Case: c})
 				usable = false
 			} else if rr.Budget != "" {
-				r.Count("skipped_expensive", 1)
+				// a named form that does not finish where its written-out form needs a twentieth of the budget or less is
+				// not the same pattern (a definition that turned into a recursion, say); everything else over budget is
+				// skipped as expensive
+				if e := vs[k].equiv; e >= 0 && run(e, ti).Budget == "" && run(e, ti).Panic == nil && run(e, ti).Steps*20 < c.StepBudget {
+					r.Violate(&drv.Violation{Sig: "not-transparent:" + vs[k].name + ":does-not-finish", Src: string(srcs[k]), Text: string(text), Case: c,
+						Detail: map[string]any{"written_out": string(srcs[e]), "written_out_steps": run(e, ti).Steps, "named_form": rr.Budget}})
+				} else {
+					r.Count("skipped_expensive", 1)
+				}
 				usable = false
 			}
 		}
